@@ -73,9 +73,11 @@ def build(spec: dict) -> tuple[bytes, dict]:
     # ---- pass 1: positions of entries inside their tables
     pos = {}
     layout = {}
-    for t in tables:
+    def place(t, lead_free=0):
         tspec = spec.get("tables", {}).get(str(t), {})
         frees = {p: s for p, s in tspec.get("free", [])}
+        if lead_free:
+            frees[0] = lead_free
         off = 10
         items = []
         n = 0
@@ -92,14 +94,28 @@ def build(spec: dict) -> tuple[bytes, dict]:
                 body = vb
             else:
                 body = b""  # pointer filled in pass 2
-            size = ENTRY_HDR + len(kb) + (len(body) if inline else 12) + (12 if inline and e["type"] != "node" else 0) + e.get("slack", 0)
+            size = ENTRY_HDR + len(kb) + (len(body) if inline else 12) + (12 if inline and e["type"] != "node" and not e.get("tight") else 0) + e.get("slack", 0)
             items.append(("entry", off, size, e, kb, body))
             pos[e["id"]] = (t, off)
             off += size
             n += 1
-        if n in frees:
+        if n in frees and not (lead_free and n == 0):
             items.append(("free", off, max(ENTRY_HDR, frees[n])))
             off += max(ENTRY_HDR, frees[n])
+        return items, off, tspec
+
+    for t in tables:
+        items, off, tspec = place(t)
+        if tspec.get("exact_fill") and any(it[0] == "entry" for it in items):
+            # a table filled to its last byte: a free entry in front of the first entry takes up what is left of the allocation,
+            # so that the last live entry ends exactly with the table
+            lead = dict(map(tuple, tspec.get("free", []))).get(0, 0)
+            lead = max(ENTRY_HDR, lead) if lead else 0
+            pad = (-(off - lead)) % align
+            if pad < ENTRY_HDR:
+                pad += align
+            items, off, tspec = place(t, lead_free=pad)
+            assert off % align == 0, (off, align)
         layout[t] = (items, off, tspec)
 
     # ---- file objects
@@ -127,6 +143,8 @@ def build(spec: dict) -> tuple[bytes, dict]:
         # the unused tail of a table always has room for one (zeroed or free) entry header: writers allocate tables in
         # alignment-sized units and never split an entry header across the end
         total = used + ENTRY_HDR + 1
+        if tspec.get("exact_fill") and used % align == 0:
+            total = used  # (see pass 1)
         o, sz = alloc(total)
         buf = bytearray(sz)
         struct.pack_into("<HHHI", buf, 0, SIG_KEYTABLE, t, seq, 0)
